@@ -25,7 +25,7 @@ ASSUMPTIONS = [
 
 def floors(tier):
     return {"states_checked": 3000, "pairs_matched_bit_exact": 8000, "chains_skipping_an_iterate": 60, "restart_states_checked": 150,
-            "inherited_pairs_checked": 300, "operators_spd_checked": 2500, "diag_operators": 800, "diag_operators_with_zero_columns": 200, "diag_operators_with_columns_of_order_1e-170_and_below": 150, "diag_requested_again_after_in_place_edit": 300, "rejected_pair_then_failed_search_then_progress": 20, "second_continuations_from_one_checkpoint_object": 40, "switch_states_checked": 300, "switch_runs_traced_through_a_logger": 60, "diagonals_held_by_the_caller_re-read_after_later_extractions": 3000, "__nontrivial__": 150}
+            "inherited_pairs_checked": 300, "operators_spd_checked": 2500, "diag_operators": 800, "diag_operators_with_zero_columns": 200, "diag_operators_with_columns_of_order_1e-170_and_below": 150, "diag_operators_on_a_length_scale_of_1e-165_and_below": 100, "diag_requested_again_after_in_place_edit": 300, "rejected_pair_then_failed_search_then_progress": 20, "second_continuations_from_one_checkpoint_object": 40, "switch_states_checked": 300, "switch_runs_traced_through_a_logger": 60, "diagonals_held_by_the_caller_re-read_after_later_extractions": 3000, "__nontrivial__": 150}
 
 
 def cases(tier, seed):
@@ -264,6 +264,9 @@ def diag_case(spec, out, keys):
                 return
         n = int(rng.integers(1, 31)) if j % 4 else int(gen.pick(rng, [3, 5, 8]))
         m = int(rng.integers(1, 13))
+        if j % 10 == 7:
+            n = int(rng.integers(1, 5))
+            m = n
         A = gen.rand_spd(rng, n, float(np.exp(rng.uniform(0, np.log(1e3)))))
         sk = rng.standard_normal((m, n)) * np.exp(rng.uniform(-2, 1, (m, 1)))
         yk = sk @ A + 0.05 * rng.standard_normal((m, n)) * np.linalg.norm(sk @ A, axis=1, keepdims=True) / np.sqrt(n)
@@ -283,16 +286,27 @@ def diag_case(spec, out, keys):
         if n >= 2 and j % 5 == 4:
             # magnitudes: a variable whose steps are of order 1e-170..1e-200 (not zero) while its gradient differences are not small
             for i in rng.choice(n, size=int(rng.integers(1, max(2, n // 3))), replace=False):
-                sk[:, i] *= float(10.0 ** -rng.uniform(165, 200))
+                f = float(10.0 ** -rng.uniform(165, 200))
+                sk[:, i] *= f
             out.count("diag_operators_with_columns_of_order_1e-170_and_below")
         keep = np.einsum("ij,ij->i", sk, yk) > 1e-8 * np.linalg.norm(sk, axis=1) * np.linalg.norm(yk, axis=1)
+        if j % 10 == 7:
+            # a separable problem living on the 1e-165..1e-180 length scale with curvatures of order 1e40..1e70, explored one coordinate
+            # at a time: a well-conditioned (diagonal) operator whose every entry is tiny
+            sk = np.diag(rng.uniform(0.5, 2.0, n) * rng.choice([-1.0, 1.0], n)) * float(10.0 ** -rng.uniform(165, 180))
+            yk = sk * np.exp(rng.uniform(0, 3, n)) * float(10.0 ** rng.uniform(40, 70))
+            out.count("diag_operators_on_a_length_scale_of_1e-165_and_below")
         sk, yk = sk[keep], yk[keep]
         if sk.shape[0] == 0:
             continue
         op = LbfgsInvHessProduct(sk.copy(), yk.copy())
         H = inv_hess_dense(sk, yk)
-        kap = float(np.linalg.cond(H))
+        with np.errstate(all="ignore"):
+            kap = float(np.linalg.cond(H)) if np.all(np.isfinite(H)) else np.inf
         if not np.isfinite(kap) or kap > 1e10:
+            # (agreement with op.todense() entry by entry was tried for these and is not sound: SciPy's dense product and its
+            #  matrix-vector product order their operations differently, and with cancellation of intermediate values of order 1e140
+            #  the two agree to no digit on the unchanged tree)
             out.count("skipped_ill_conditioned")
             continue
         got = np.asarray(extract_hess_inv_diag(op))
@@ -311,7 +325,8 @@ def diag_case(spec, out, keys):
                 return
         out.count("diag_operators")
         scale = float(np.max(np.abs(np.diag(H))))
-        tol = 1e3 * kap * EPS * scale
+        # (... plus the residue the projections I - rho s y^T leave of the initial identity when they annihilate it: (a few eps)^2 per pair)
+        tol = 1e3 * kap * EPS * scale + 1e3 * sk.shape[0] * EPS * EPS
         if got.shape != (n,):
             out.violate("diag_shape", f"diag n={n} m={sk.shape[0]}: shape {got.shape}", what="diag")
             return
